@@ -305,6 +305,28 @@ type c13Sum struct {
 	Model int       // 0 nothing, 1 exact, 2 normal
 	Vals  []float64 // in the order given to NewSample (a copy is passed)
 	Conf  float64
+	// Probe: additionally derive the number of samples needed for a finite
+	// interval through AssumeNothing.Summary itself (samples of 2..50 distinct
+	// values at the same confidence) and compare the warning with it.
+	Probe bool `json:",omitempty"`
+}
+
+// c13DerivedNeed returns the least n in 2..50 for which the assume-nothing
+// summary of n distinct values at this confidence has two finite ends (0 if
+// there is none): "how many samples are needed", observed through the API.
+func c13DerivedNeed(conf float64) int {
+	thr := benchmath.DefaultThresholds
+	for n := 2; n <= 50; n++ {
+		vals := make([]float64, n)
+		for i := range vals {
+			vals[i] = float64(i + 1)
+		}
+		sm := benchmath.AssumeNothing.Summary(benchmath.NewSample(vals, &thr), conf)
+		if !math.IsInf(sm.Lo, 0) && !math.IsInf(sm.Hi, 0) && !math.IsNaN(sm.Lo) && !math.IsNaN(sm.Hi) {
+			return n
+		}
+	}
+	return 0
 }
 
 var c13IntTok = regexp.MustCompile(`^[0-9]+$`)
@@ -423,6 +445,32 @@ func c13CheckSummary(c c13Sum) *kit.Fail {
 				}
 				if n >= need && !near {
 					return kit.Failf("warning-count-wrong", "%s: %d samples suffice for a finite interval, sample has %d", desc, need, n)
+				}
+			}
+			if c.Probe {
+				// The statement: "a warning saying how many samples are
+				// needed". Needed = the least sample size for which Summary
+				// itself reports a finite interval at this confidence.
+				if need := c13DerivedNeed(c.Conf); need > 0 {
+					ok := false
+					for _, w := range sm.Warnings {
+						for _, tok := range strings.Fields(w.Error()) {
+							if c13IntTok.MatchString(tok) {
+								if v, _ := strconv.Atoi(tok); v == need {
+									ok = true
+								}
+							}
+						}
+					}
+					if !ok {
+						return kit.Failf("warning-count-wrong", "%s: Summary has a finite interval for %d distinct values at this confidence (and for no smaller sample)", desc, need)
+					}
+					kit.Count("nothing: warning count compared with the minimum derived through Summary", 1)
+					if c.Conf > 1-1e-6 {
+						kit.Count("nothing: ... of which confidence above 1-1e-6 (needs >= 22 samples)", 1)
+					}
+				} else {
+					kit.Count("nothing: no sample size up to 50 gives a finite interval (count not compared)", 1)
 				}
 			}
 		}
@@ -599,8 +647,60 @@ func c13GenSum(model int) func(r *kit.Rand, i int) c13Sum {
 		if model == 0 && r.Chance(0.4) {
 			style = kit.Pick(r, []int{0, 2, 4, 5, 8})
 		}
-		return c13Sum{Model: model, Vals: c13GenValues(r, n, style), Conf: c13GenConf(r)}
+		return c13Sum{Model: model, Vals: c13GenValues(r, n, style), Conf: c13GenConf(r), Probe: model == 0 && i%8 == 0}
 	}
+}
+
+// c13GenHighConf: confidence levels of the form 1-10^-k and 1-c*10^-k
+// (k = 3..10) and values on / next to the coverage steps 1-2^(1-n) of the
+// widest finite order-statistic interval.
+func c13GenHighConf(r *kit.Rand) float64 {
+	for {
+		var conf float64
+		switch r.Intn(4) {
+		case 0:
+			conf = 1 - math.Pow(10, -float64(r.Range(3, 10)))
+		case 1:
+			conf = 1 - float64(r.Range(1, 9))*math.Pow(10, -float64(r.Range(3, 10)))
+		case 2:
+			conf = 1 - float64(r.Range(10, 99))/10*math.Pow(10, -float64(r.Range(3, 10)))
+		default:
+			step := 1 - math.Ldexp(1, 1-r.Range(2, 40))
+			switch r.Intn(7) {
+			case 0:
+				conf = step
+			case 1:
+				conf = math.Nextafter(step, 0)
+			case 2:
+				conf = math.Nextafter(step, 1)
+			default:
+				d := kit.Pick(r, []float64{1e-15, 1e-12, 3e-10, 1e-8})
+				if r.Bool() {
+					d = -d
+				}
+				conf = step + d
+			}
+		}
+		if conf > 0 && conf < 1 {
+			return conf
+		}
+	}
+}
+
+func c13GenSumHighConf(r *kit.Rand, i int) c13Sum {
+	var n int
+	switch r.Intn(4) {
+	case 0:
+		n = r.Range(1, 8)
+	case 1:
+		n = r.Range(1, 30)
+	case 2:
+		n = r.Range(24, 40)
+	default:
+		n = r.Range(1, 70)
+	}
+	style := kit.Pick(r, []int{0, 1, 2, 4, 5, 8, 8})
+	return c13Sum{Model: 0, Vals: c13GenValues(r, n, style), Conf: c13GenHighConf(r), Probe: true}
 }
 
 // ---------------------------------------------------------------------------
@@ -1352,6 +1452,10 @@ func TestVerifC13(t *testing.T) {
 	}
 	kit.Run(t, "C13",
 		sumClass("summary-nothing", 0, 40000, 1800000, 30000),
+		kit.Class[c13Sum]{Name: "summary-nothing-high-confidence", Quick: 12000, Thorough: 300000, Gen: c13GenSumHighConf, Check: c13CheckSummary,
+			NonTrivial: c13SumNonTrivial, MinNonTrivial: 9000,
+			Rule: "assume-nothing summaries of 1..70 values at confidence 1-10^-k, 1-c*10^-k (c = 1..9 and 1.0..9.9, k = 3..10) and on / one ulp / 1e-15..1e-8 either side of the coverage steps 1-2^(1-n), n = 2..40; " +
+				"all summary-nothing checks, and for every infinite interval the count in the warning must equal the least sample size (2..50 distinct values) for which AssumeNothing.Summary itself returns a finite interval at that confidence; non-trivial = at least two values"},
 		sumClass("summary-exact", 1, 8000, 300000, 6000),
 		sumClass("summary-normal", 2, 10000, 400000, 8000),
 		cmpClass("compare-nothing-untied-small", 0, "untied-small", 12000, 600000, 9000),
